@@ -73,6 +73,24 @@ def is_json_serializable(item: Any) -> bool:
     return json_serializable
 
 
+def is_json_native(item: Any) -> bool:
+    """
+    Test if JSON reproduces an object exactly (values and types):
+    tuples would come back as lists, non-string dictionary keys as strings
+    and subclasses of the builtin types (e.g. numpy scalars) as builtins.
+
+    :param item: The object to be tested.
+    :return: True if ``json.loads(json.dumps(item))`` gives back the same object.
+    """
+    if item is None or type(item) in (bool, int, float, str):
+        return True
+    if type(item) is list:
+        return all(is_json_native(value) for value in item)
+    if type(item) is dict:
+        return all(type(key) is str and is_json_native(value) for key, value in item.items())
+    return False
+
+
 def data_to_json(data: dict[str, Any]) -> str:
     """
     Turn data (class parameters) into a JSON string for storing
@@ -88,7 +106,7 @@ def data_to_json(data: dict[str, Any]) -> str:
     serializable_data = {}
     for data_key, data_item in data.items():
         # See if object is JSON serializable
-        if is_json_serializable(data_item):
+        if is_json_serializable(data_item) and is_json_native(data_item):
             # All good, store as it is
             serializable_data[data_key] = data_item
         else:
